@@ -439,7 +439,7 @@ def _run(sc, res, log, store, r):
         res.probe("error_output_with_another_verbosity")
     if sc.get("custom_style"):
         from clikit.api.formatter import Style
-        io.output.formatter.add_style(Style("warning").fg("yellow").bold())
+        io.output.formatter.add_style(Style("warning").fg("magenta").underlined())
         res.probe("style_registered_by_the_application")
     if sc["verbosity"] == 4:
         res.probe("debug_verbosity")
